@@ -534,6 +534,10 @@ class Guard:
                 callee = next((f for f in self.c.fns if f["def"] == di and f is not self.fn), None)
                 if callee is not None and arg_paths is not None and not (len(callee["params"]) == len(arg_paths) and all(p_.get("k") == "Bind" for p_ in callee["params"])):
                     callee = None
+                # only a pure validator (`-> Result<(), E>`) is read as part of the check; a fallible constructor that is handed
+                # a parameter (`SerdeRegex::new(&self.0.expr)?`) stays the opaque sub-check it is
+                if callee is not None and arg_paths is not None and not re.match(r"^(std::|core::)?(result::)?Result<\(\),", (callee.get("output") or "").replace(" ", "")):
+                    callee = None
         if callee is None:
             self.effect(m)
             return inp
